@@ -43,6 +43,8 @@ K_DISPLACED = "replace-displaces-satisfying-package"
 K_RECURSION = "cycle-check-first-candidate-only"
 K_STALE = "force-next-keeps-stale-deps"
 K_CTOR = "resolver-constructor-instance-cache"
+K_SHARED_BLOCKER = "shared-blocker-second-registration-unchecked"
+K_UNLOADED = "blocker-skips-unloaded-installed-package"
 
 
 def _cpv(ident):
@@ -69,13 +71,35 @@ def relevant_trace(problem, res, viol):
         mode = viol["dep_class"].lower()
         spec = [s for s in problem["source"] if ref.ident(s) == tuple(viol["owner"])]
         own = _atoms_by_class(spec[0]) if spec else set()
-        evs = [e for e in trace if e["parent"] and e["parent"]["cpv"] == owner and not e["parent"]["livefs"]]
-        last = {}
-        for e in evs:
-            if e["mode"] == mode and e["atom"] in atoms:
-                last[e["atom"]] = e       # keep the last event per atom (the pass that led to the reported plan)
+        # the invocation that put the owner into the reported plan = the last successful one that chose it
+        chose = [e for e in trace if e["ok"] and e["pkg"] and e["pkg"]["cpv"] == owner and not e["pkg"]["livefs"]
+                 and e["how"] in ("chosen", "vdb-limited") and e.get("serial") is not None]
+        evs, last = [], {}
+        if chose:
+            # ... more precisely the last such invocation that walked this dependency class at all (a later one may
+            # have found the owner "already in the plan" and returned before walking e.g. PDEPEND)
+            for ch in reversed(chose):
+                evs = [e for e in trace if e.get("parent_serial") == ch["serial"]]
+                last = {}
+                for e in evs:
+                    if e["mode"] == mode and e["atom"] in atoms:
+                        last[e["atom"]] = e       # the last event per atom of that invocation
+                if last:
+                    break
+        else:
+            evs = [e for e in trace if e["parent"] and e["parent"]["cpv"] == owner and not e["parent"]["livefs"]]
+            for e in evs:
+                if e["mode"] == mode and e["atom"] in atoms:
+                    last[e["atom"]] = e
         foreign = sorted({(e["mode"], e["atom"]) for e in evs if (e["mode"], e["atom"]) not in own})
-        return list(last.values()), [list(x) for x in foreign]
+        how = list(last.values())
+        if viol["rule"] == "blocked-member":
+            mine = {e.get("parent_serial") for e in how}
+            for e in how:
+                e["also_registered_by"] = sorted({x["parent"]["cpv"] for x in trace if x["how"] == "blocker" and x["ok"]
+                                                  and x["atom"] == e["atom"] and x["parent"]
+                                                  and x.get("parent_serial") not in mine})
+        return how, [list(x) for x in foreign]
     return [], []
 
 
@@ -114,9 +138,14 @@ def classify(w):
                 "WeaklyCached class MutableContainmentRestriction" in (w.get("exc") or ""):
             return K_CTOR
         rec = w.get("recursion") or {}
-        if (w.get("exc") or "").startswith("RecursionError") and rec.get("period") \
-                and rec.get("cycle_moved_past_first_candidate"):
-            return K_RECURSION
+        if (w.get("exc") or "").startswith("RecursionError"):
+            # the resolver stack is one dependency cycle over and over, and the frames of that cycle are past their
+            # first candidate (the only one check_for_cycles looked at)
+            if rec.get("period") and rec.get("cycle_moved_past_first_candidate"):
+                return K_RECURSION
+            top = rec.get("most_repeated") or []
+            if not rec.get("period") and top and top[0][1] >= 10 and top[0][2] >= 2:
+                return K_RECURSION
         return None
     rule = w.get("rule") or ""
     if w.get("trace_capped"):
@@ -135,6 +164,19 @@ def classify(w):
                 return K_IDEPEND
             return None
         if rule == "blocked-member":
+            # the blocker was registered without complaint although another package had registered the very same
+            # blocker before (second registrations used to skip the match check)
+            if ok and all(e["how"] == "blocker" and e.get("also_registered_by") for e in ok):
+                return K_SHARED_BLOCKER
+            # the blocked packages are installed packages no operation of the plan ever mentions, and when the
+            # blocker was registered the plan already held some other match of it - the only case in which
+            # _ensure_livefs_is_loaded does not look at the installed packages
+            touched = {(gp_ident(o["pkg"]), o["pkg"]["livefs"]) for o in (w.get("ops") or [])}
+            touched |= {(gp_ident(o["old"]), o["old"]["livefs"]) for o in (w.get("ops") or []) if o.get("old")}
+            blocked = (w.get("detail") or {}).get("blocked") or []
+            if ok and blocked and all(b[3] == "vdb" and (tuple(b[:3]), True) not in touched for b in blocked) \
+                    and all(e["how"] == "blocker" and e.get("plan_matched_before") for e in ok):
+                return K_UNLOADED
             return None
         if any(e["how"] == "slot-cycle" for e in ok):
             return K_SLOT_CYCLE
